@@ -673,8 +673,9 @@ cfoldBCall(Foam bcall)
 		assert(foamTag(argv[0]) == FOAM_SInt);
 		assert(foamTag(argv[1]) == FOAM_SInt);
 		assert(foamTag(argv[2]) == FOAM_SInt);
-		n = argv[0]->foamSInt.SIntData * argv[1]->foamSInt.SIntData;
-		foam = foamNewSInt(n % argv[2]->foamSInt.SIntData);
+		foam = foamNewSInt(fiSIntTimesMod(argv[0]->foamSInt.SIntData,
+						  argv[1]->foamSInt.SIntData,
+						  argv[2]->foamSInt.SIntData));
 		break;
 	  case FOAM_BVal_SIntLength:
 		if (!cfoldFoldAll) break;
